@@ -181,7 +181,9 @@ pub fn case_roundtrip(c: &mut Choices, log: &mut CaseLog) -> CaseResult {
         _ => Codec::Zstandard(ZstandardSettings::new(if c.chance(1, 12) { 20 + c.pick(3) as u8 } else { c.pick(20) as u8 })),
     };
     let big = std::env::var("VERIF_TIER").map(|t| t == "thorough").unwrap_or(false);
-    let payload = gen_payload(c, big);
+    let mut payload = gen_payload(c, big);
+    // a payload beyond the allocation limit is refused by design (the `limit` campaign's subject)
+    payload.truncate(LIMIT);
     log.label("case");
     log.label(&format!("codec:{}", codec_kind(&codec)));
     log.nontrivial = payload.len() >= 2 && codec != Codec::Null;
